@@ -228,10 +228,11 @@ MODELLED = {
 
 RENDER = ["Convergen.Bridge.Render"]
 TABLES = ["Convergen.Bridge.Tables"]
+NODES = ["Convergen.Bridge.Nodes"]
 
 PROPS = {
     "C01": {
-        "bridge": RENDER + TABLES,
+        "bridge": RENDER + TABLES + NODES,
         "extra_modules": ["Convergen.Props.C04", "Convergen.Props.C16"],
         "sweeps": [sweep_front("mixed", 160, 6000, cats=["body", "slice", "hook", "header", "errflow"], compile=True),
                    sweep_front("matching", 100, 3000, cats=["body", "slice"], compile=True),
@@ -254,7 +255,7 @@ PROPS = {
         "assumptions": ["Go's typing of the emitted fragment is judged by the compiler, not modelled (GoTyping is limited to castNode_sound and the slice decision)"],
     },
     "C02": {
-        "bridge": RENDER,
+        "bridge": RENDER + NODES,
         "extra_modules": ["Convergen.Props.BuilderInv", "Convergen.Props.Cover", "Convergen.Props.Rooted"],
         "sweeps": [sweep_runtime(60, 1500), sweep_front("nesting", 120, 3000, cats=["body", "slice"]),
                    sweep_front("scoping", 80, 2000, cats=["body", "slice"])],
@@ -302,7 +303,7 @@ PROPS = {
         "assumptions": ["only the two documented spellings of the pure convergen constraint are claimed (compound constraints are outside the stated quantifier)"],
     },
     "C04": {
-        "bridge": RENDER + TABLES,
+        "bridge": RENDER + TABLES + NODES,
         "sweeps": [sweep_front("matching", 150, 4000, cats=["body", "slice", "stderr"]),
                    sweep_front("plain", 60, 3000, cats=["body", "slice", "stderr"]),
                    sweep_front("mixed", 60, 2000, cats=["body", "slice", "stderr"])],
@@ -317,7 +318,7 @@ PROPS = {
         "assumptions": ["go/types relations are oracle tables (WF of the facts is assumed, not proved)"],
     },
     "C05": {
-        "bridge": RENDER,
+        "bridge": RENDER + NODES,
         "extra_modules": ["Convergen.Props.BuilderInv", "Convergen.Props.Cover"],
         "sweeps": [sweep_front("nesting", 120, 4000, cats=["body", "slice", "stderr"]),
                    sweep_front("imports", 80, 2000, cats=["body", "slice", "stderr"]),
@@ -332,7 +333,7 @@ PROPS = {
         "assumptions": ["go/types relations are oracle tables"],
     },
     "C06": {
-        "bridge": RENDER + TABLES,
+        "bridge": RENDER + TABLES + NODES,
         "sweeps": [sweep_front("notations", 160, 4000, cats=["body", "slice", "stderr"]),
                    sweep_front("nesting", 80, 2000, cats=["body", "slice", "stderr"]),
                    sweep_front("casefold", 60, 2000, cats=["body", "slice", "stderr"])],
@@ -349,7 +350,7 @@ PROPS = {
         "assumptions": ["the order of the chain in the Go source is pinned by Bridge.precedence_eq"],
     },
     "C07": {
-        "bridge": RENDER,
+        "bridge": RENDER + NODES,
         "sweeps": [sweep_front("errors", 150, 4000, cats=["errflow", "body", "hook", "exit"]),
                    sweep_front("hooks", 80, 2000, cats=["errflow", "hook", "exit"]), sweep_runtime(50, 1500)],
         "rule": FRONT_RULE % "errors",
